@@ -82,7 +82,7 @@ class Verifier:
             return "unsat", None, ""
         s = z3.Solver()
         s.set("timeout", self.timeout_ms)
-        for a in self.ex.global_axioms:
+        for a in self.ex.all_axioms():
             s.add(a)
         s.add(*pc)
         s.add(z3.Not(goal))
@@ -167,6 +167,7 @@ class Verifier:
         feasible_paths = 0
         try:
             for ci_idx, params in enumerate(cases):
+                ex.new_target()
                 ex.side_obligations = []
                 self._case_posts = c.case_posts.get(ci_idx)
                 self._case_raises = getattr(c.cls, "case_raises", {}).get(ci_idx)
@@ -257,7 +258,7 @@ class Verifier:
                 return
         sol = z3.Solver()
         sol.set("timeout", 3000)
-        for a in self.ex.global_axioms:
+        for a in self.ex.all_axioms():
             sol.add(a)
         sol.add(*s.pc)
         if sol.check() != z3.sat:
@@ -350,7 +351,7 @@ class Verifier:
                 if eqs:
                     chk = z3.Solver()
                     chk.set("timeout", 3000)
-                    for a_ in self.ex.global_axioms:
+                    for a_ in self.ex.all_axioms():
                         chk.add(a_)
                     chk.add(*s.pc)
                     for t in self._scalar_terms(s, values):
@@ -453,7 +454,7 @@ class Verifier:
         pc, goal = q
         sol = z3.Solver()
         sol.set("timeout", 4000)
-        for a in self.ex.global_axioms:
+        for a in self.ex.all_axioms():
             sol.add(a)
         sol.add(*pc)
         sol.add(z3.Not(goal))
@@ -526,6 +527,7 @@ def _verify_lemma(self: Verifier, key: str) -> Obl:
         st.stack.append(fid)
         values = {n: spec.make(ex, st, n) for n, spec in lm.params.items()}
         fv = FuncV(node, mod, key)
+        ex.new_target()
         ex.side_obligations = []
         for s, v in ex.inline_call(fv, [], values, st):
             o.paths += 1
